@@ -99,9 +99,9 @@ impl Program {
 
     pub fn link(&mut self) -> (Address, Arc<Vec<Error>>, Arc<Vec<Error>>) {
         match self.link.last() {
-            // Lines without code after a final END are branch targets too; they need an
-            // End of their own or they resolve to the start of the direct code.
-            Some(Opcode::End) if self.direct_address != 0 || !self.link.has_line_at_end() => {}
+            // Labels behind a final END (lines without code, the exit of IF..THEN END) need
+            // an End of their own or they resolve to the start of the direct code.
+            Some(Opcode::End) if self.direct_address != 0 || !self.link.has_label_at_end() => {}
             _ => {
                 if let Err(error) = self.link.push(Opcode::End) {
                     Arc::make_mut(&mut self.errors).push(error);
